@@ -2,6 +2,7 @@ package colsim
 
 import (
 	"fmt"
+	"runtime"
 	"sort"
 
 	"github.com/kelindar/column"
@@ -236,6 +237,9 @@ func (w *World) close() {
 		c.Close()
 	}
 	w.colls = nil
+	// let the cancelled vacuum goroutines run to their exit (single P: they only get the
+	// processor when this goroutine yields) so that they stop pinning their collections
+	runtime.Gosched()
 }
 
 // prefill populates a collection by replaying hand-built insert/delete commits, which
